@@ -32,8 +32,23 @@ def impl(line):
     return V.impl(line)
 
 
+TALLY = {}
+GRID = {}
+
+
+def _outcome(ans):
+    if ans.startswith("err!") or ans.startswith("ok illformed"):
+        return "flagged"          # internal error / ill-formed result: a finding or a violation
+    if ans.startswith("err "):
+        return "refused"          # documented exception class
+    return "well_formed"          # `ok wf`, or a plain-data answer (judged by the Lean spec predicate)
+
+
 def nontrivial(line, ans):
     t = line.split()
+    fam = t[0] + (":" + t[1] if t[0] in ("ctor", "call") else "")
+    d = TALLY.setdefault(fam, {"refused": 0, "well_formed": 0, "flagged": 0})
+    d[_outcome(ans)] += 1
     if t[0] == "ctor":
         return line if t[4] != "none" else None
     if t[0] == "call":
@@ -43,6 +58,28 @@ def nontrivial(line, ans):
 
 def spec_skip(line):
     return False
+
+
+def extra_checks(run):
+    """auditable coverage: exact grid dimensions and, per family, how the real library answered"""
+    fam = {}
+    for k, d in sorted(TALLY.items()):
+        top = k.split(":")[0]
+        agg = fam.setdefault(top, {"refused": 0, "well_formed": 0, "flagged": 0})
+        for o, n in d.items():
+            agg[o] += n
+    tot = {o: sum(d[o] for d in fam.values()) for o in ("refused", "well_formed", "flagged")}
+    n = max(1, sum(tot.values()))
+    run.extra["grid"] = {
+        "dimensions": GRID.get("dimensions", {}),
+        "outcomes_by_family": fam,
+        "outcomes_by_class": {k: d for k, d in sorted(TALLY.items()) if ":" in k},
+        "outcome_shares": {o: round(v / n, 4) for o, v in tot.items()},
+        "legend": "refused = documented exception class; well_formed = `ok wf` / a plain-data answer accepted by the Lean "
+                  "spec predicate unless listed under spec_failures; flagged = internal error or ill-formed result on the "
+                  "implementation side - every flagged point is either matched by a finding (known_findings_hit) or a "
+                  "VIOLATION",
+    }
 
 
 # ----------------------------------------------------------------------------------------------
@@ -231,16 +268,22 @@ def cases(run):
             return True
         return False
 
+    dims = {"ctor": {}, "call": {}}
+    TALLY.clear()
     # (A) constructors x corruption kinds -------------------------------------------------------
     n_ctor = 0
     for cn, spec in V.CLASSES.items():
+        d = dims["ctor"].setdefault(cn, {"bases": 0, "corruption_kinds": set(), "points": 0})
         for tname in spec.templates:
             for _ in range(seeds_per_template):
                 bid = f"{tname}.{run.rng.randint(0, 10 ** 6)}"
+                d["bases"] += 1
                 for param, kind in V.ctor_points(cn, bid):
                     line = f"ctor {cn} {bid} {param} {kind}"
                     if emit(line):
                         n_ctor += 1
+                        d["points"] += 1
+                        d["corruption_kinds"].add(f"{param}:{kind}")
                         run.count(f"ctor:{cn}:{kind}")
                         yield line
                     if cn in CTOR_DATA_CLASSES:
@@ -272,10 +315,15 @@ def cases(run):
                         "merge_overlapping", "reverse", "shift_position", "extend_absolute", "__len__", "__str__", "__hash__",
                         "blocks", "is_overlapping", "is_contiguous", "num_blocks", "start", "end", "length")
                 points = [p for p in points if p[0] in keep]
+            d = dims["call"].setdefault(cn, {"bases": 0, "members": set(), "argument_tuples": set(), "points": 0})
+            d["bases"] += 1
             for m, argid in points:
                 line = f"call {cn} {bid} {m} {argid}"
                 if emit(line):
                     n_call += 1
+                    d["points"] += 1
+                    d["members"].add(m)
+                    d["argument_tuples"].add(f"{m} {argid}")
                     run.count(f"call:{cn}")
                     yield line
     # operand-pair grids ---------------------------------------------------------------------------
@@ -285,6 +333,13 @@ def cases(run):
             n_pair += 1
             run.count("pair-grid:" + " ".join(line.split()[:2 if line.startswith("pcons") else 1]))
             yield line
+    # parser entry points on malformed-but-parseable feature lists --------------------------------
+    n_parse = 0
+    for line in V.gb_lines():
+        if emit(line):
+            n_parse += 1
+            run.count("parser-grid:gbparse")
+            yield line
     # plain-data constructor lines: exhaustive small scopes ---------------------------------------
     n_small = 0
     for line in _small_scopes(run):
@@ -293,6 +348,14 @@ def cases(run):
             run.count("small-scope:" + line.split()[0])
             yield line
     run.exhaustive = True
+    GRID["dimensions"] = {
+        "constructor_grid": {cn: {"bases": d["bases"], "corruption_kinds": len(d["corruption_kinds"]), "points": d["points"]}
+                             for cn, d in dims["ctor"].items()},
+        "method_grid": {cn: {"bases": d["bases"], "members": len(d["members"]), "member_x_argument_tuples": len(d["argument_tuples"]),
+                             "points": d["points"]} for cn, d in dims["call"].items()},
+        "totals": {"constructor_points": n_ctor, "method_points": n_call, "operand_pair_points": n_pair,
+                   "parser_points": n_parse, "plain_data_constructor_lines": n_small},
+    }
     EXHAUSTIVE_NOTE = (f"grid A: {n_ctor} constructor x corruption points over {len(V.CLASSES)} classes; grid B: {n_call} "
                        f"member x argument-tuple points over {len(V.CALL_CLASSES)} classes (every public property/method found "
                        f"by introspection); {n_pair} operand-pair points (Sequence.append over all ordered pairs of located "
